@@ -364,9 +364,11 @@ def _compound_strategy(nit):
     if nit == "float":
         exps = st.one_of(st.integers(-4, 4).filter(bool), st.sampled_from([0.5, -0.5, 1.5, 0.25, 2.5, -1.5, 0.125, 1.75]), st.sampled_from([5, 6, 7, 8, 9, 10, 12, 19, -9, -10, 0.9, 36]))  # every digit occurs
     elif nit == "Decimal":
-        exps = st.one_of(st.integers(-4, 4).filter(bool), st.sampled_from([Decimal("0.5"), Decimal("-1.5"), Decimal("0.25"), Decimal("2.5")]), st.sampled_from([5, 6, 7, 8, 9, 10, -9, 19]))
+        exps = st.one_of(st.integers(-4, 4).filter(bool), st.sampled_from([Decimal("0.5"), Decimal("-1.5"), Decimal("0.25"), Decimal("2.5")]), st.sampled_from([5, 6, 7, 8, 9, 10, -9, 19]),
+                          # integral exponents of the registry's own number type (what parsing 'm ** 10' or (m ** 5) ** 2 yields there)
+                          st.sampled_from([Decimal("10"), Decimal("20"), Decimal("-10"), Decimal("100"), Decimal("30"), Decimal("3"), Decimal("2.0"), Decimal("-400")]))
     else:
-        exps = st.one_of(st.integers(-4, 4).filter(bool), st.sampled_from([Fraction(1, 2), Fraction(-3, 2), Fraction(1, 4), Fraction(5, 2), Fraction(1, 3)]), st.sampled_from([5, 6, 7, 8, 9, 10, -9, 19, Fraction(9, 7)]))
+        exps = st.one_of(st.integers(-4, 4).filter(bool), st.sampled_from([Fraction(1, 2), Fraction(-3, 2), Fraction(1, 4), Fraction(5, 2), Fraction(1, 3)]), st.sampled_from([5, 6, 7, 8, 9, 10, -9, 19, Fraction(9, 7), Fraction(10), Fraction(-20), Fraction(100)]))
     return st.builds(lambda u, spec, short: {"units": u, "spec": short + spec, "nit": nit},
                      st.dictionaries(st.sampled_from(names + ["kilometer", "millisecond", "microgram"]), exps, min_size=1, max_size=4), st.sampled_from(SPECS), st.sampled_from(["", "~"]))
 
